@@ -1001,4 +1001,29 @@ example : modelCmds exCfg (.acq 0 0) false false (some 2) .nilNoErr = "evalsha!,
     modelCmds exCfg (.acq 0 0) false true (some 0) .nilNoErr = "-" ∧
     modelCmds exCfg (.rel 0) false true none .nilNoErr = "evalsha" := by decide
 
+/-- **No answer without asking Redis**: every call, in every environment, attempts its EVALSHA first — the trace
+is never empty; so "reports false" / "reports true" is always the decoding of something that came back for the
+call's own script (or of the refusal of the gate), never a client-side guess about the lease (seeded C19-7).
+Tie: `tie_noEarlyReturn` (no return in front of the script run for any condition values), `tie_lockFields`. -/
+theorem every_call_asks_redis (cfg : Nat → LockCfg) (call : Call) (env : Nat → Wire → Answer) :
+    ((gexec env (realG cfg call) 0).1.map (·.1)).head? = some ⟨.evalsha, scriptCmd cfg call⟩ := by
+  rw [(command_trace_is_the_own_script_only cfg call env).1]
+  split <;> rfl
+
+/-- … and a holder whose Release reaches Redis is told true: with the reply of its own script handed back
+unchanged, Release by the current holder reports true and frees the key (the clause C19-7 broke), through the
+trace semantics: the environment lets EVALSHA pass and answers with delscript's reply in state `st`. -/
+theorem release_by_holder_reports_true_through_the_wire (cfg : Nat → LockCfg) (st : St) (i : Nat)
+    (hh : holds cfg st i) (env : Nat → Wire → Answer)
+    (h0 : (env 0 ⟨.evalsha, scriptCmd cfg (.rel i)⟩).seen =
+      .handed (.reply (delScript st.store (cfg i).key (cfg i).id).2)) :
+    (gexec env (realG cfg (.rel i)) 0).2 = (true, false) := by
+  rw [(command_trace_is_the_own_script_only cfg (.rel i) env).2, h0]
+  have hr := (release_only_by_holder cfg st i).1.2 hh
+  have e := handed_real_reply cfg st (.release i) rfl
+  simp only [Got.toHanded]
+  have : decodeG (.rel i) (.reply (delScript st.store (cfg i).key (cfg i).id).2) =
+      handedOf (.release i) (.reply (scriptReply cfg st (.release i))) := rfl
+  simp [this, e, step, hr]
+
 end GoZero.C19
